@@ -31,6 +31,17 @@ CONST_KEYS = ["solid_fraction", "cp_s", "cp_w", "cp_i", "cp_solution", "depressi
 # ---------------------------------------------------------------------------
 # generator proxy
 # ---------------------------------------------------------------------------
+class ObservationError(Exception):
+    """the harness could not OBSERVE the real object (an attribute it reads is gone): an
+    infrastructure error of the check, never a verdict about the property"""
+
+
+def _private(S, name):
+    if not hasattr(S, name):
+        raise ObservationError(f"Snowflake has no attribute {name!r} any more: the harness must be adapted")
+    return getattr(S, name)
+
+
 class Proxy:
     """Stands in for `Snowflake._rng`.
 
@@ -49,6 +60,7 @@ class Proxy:
         self.normals = []     # [[values]] for .normal
         self.choices = 0
         self.ctx_seen = 0     # how many calls exposed P to the script
+        self.ctx_missing = 0  # scripted calls (n > 0) for which the caller's frame did not expose P
 
     def _ctx(self, n):
         ctx = {"call": len(self.calls), "n": int(n), "k": None, "P": None, "cand": None}
@@ -72,6 +84,8 @@ class Proxy:
         if self.mode == "script" and self.script is not None:
             if ctx["P"] is not None:
                 self.ctx_seen += 1
+            elif nn > 0:
+                self.ctx_missing += 1
             vals = np.asarray(self.script(ctx), dtype=float).reshape(nn)
         else:
             vals = np.asarray(self.real.random(nn), dtype=float)
@@ -80,7 +94,7 @@ class Proxy:
 
     def normal(self, *a, **kw):
         v = self.real.normal(*a, **kw)
-        self.normals.append([float(x) for x in np.atleast_1d(v)])
+        self.normals.append([float(x) for x in np.asarray(v, dtype=float).ravel()])
         return v
 
     def choice(self, *a, **kw):
@@ -281,7 +295,7 @@ def run_real(case, script=None):
     st = S.stats
     nbrs, ext, _ = interaction(S)
     ksh = np.ones(n) * np.asarray(S.k["shelf"], dtype=float)
-    Hs = np.ones(n) * np.asarray(S._H_shelf, dtype=float)
+    Hs = np.ones(n) * np.asarray(S.H_shelf, dtype=float)       # public accessors where they exist
     c = S.const
     a, cc = float(c["a"]), float(c["c"])
     xi = xi_of(S.seed_v, n)
@@ -289,8 +303,8 @@ def run_real(case, script=None):
     obs = {
         "raise": None,
         "n": n,
-        "N": int(S._X.shape[1]),
-        "t": [float(x) for x in S._t],
+        "N": int(np.asarray(S.X_T).shape[1]),
+        "t": [float(x) for x in _private(S, "_t")],
         "XT": np.asarray(S.X_T).T.tolist(),          # [step][vial]
         "Xsigma": np.asarray(S.X_sigma).T.tolist(),
         "tNuc": [float(x) for x in st["t_nucleation"]],
@@ -298,7 +312,7 @@ def run_real(case, script=None):
         "tSol": [float(x) for x in st["t_solidification"]],
         "calls": [[k, v] for k, v in px.calls],
         "normal_calls": len(px.normals),
-        "ctx_seen": px.ctx_seen,
+        "ctx_seen": px.ctx_seen, "ctx_missing": px.ctx_missing,
         "Tshelf": [float(x) for x in S.opcond.tempProfile(S.dt)],
         "cnt": (None if math.isinf(float(S.opcond.cnt)) else float(S.opcond.cnt)),
         # inputs of the model, read from the real object
@@ -310,7 +324,9 @@ def run_real(case, script=None):
         "nbrs": nbrs, "ext": ext,
         "kShelf": [float(x) for x in ksh],
         "Hshelf": [float(x) for x in Hs],
-        "kInt": float(S.k["int"]), "kExt": float(S.k["ext"]),
+        # the coefficients the USER passed (not what the object holds after construction/run)
+        "kInt": float(case["k"]["int"]), "kExt": float(case["k"]["ext"]),
+        "k_obj": {key: float(S.k[key]) for key in ("int", "ext") if key in S.k},
         # T_k_0 implied by the CONFIGURATION (given temperature, else the start temperature of the
         # program); what the object holds is an observation
         "T0": float(case["T0"] if case.get("T0") is not None else case["opcond"]["start"]),
@@ -320,7 +336,7 @@ def run_real(case, script=None):
         "stored_idx": (sorted(int(i) for i in case["store"]) if case.get("store") is not None else None),
         # recorded vials implied by the configuration ('all', or the listed vial indices)
         "mask": ([True] * n if case.get("store") is None else [i in set(case["store"]) for i in range(n)]),
-        "mask_obj": [bool(x) for x in S._storageMask],
+        "mask_obj": [bool(x) for x in _private(S, "_storageMask")],
         "threshold": float(S.solidificationThreshold),
         "initIce": S.initIce,
         "dt": float(S.dt),
@@ -334,8 +350,8 @@ def run_real(case, script=None):
         "arr_arg": str(layered_config(case.get("config"))["snowfall_parameters"]["vial_arrangement"]),
         "shape": [int(x) for x in case["N_vials"]],
         # conductance operators AS USED by the run
-        "Hint": _sparse(S._H_int),
-        "Hext": [float(x) for x in np.ones(n) * np.asarray(S._H_ext, dtype=float)],
+        "Hint": _sparse(S.H_int),
+        "Hext": [float(x) for x in np.ones(n) * np.asarray(S.H_ext, dtype=float)],
     }
     return obs
 
@@ -566,8 +582,13 @@ def compare_run(case, impl, model, tie=1e-9):
     for name in ("tNuc", "TNuc", "tSol"):
         for i, (x, y) in enumerate(zip(impl[name], model[name])):
             if not _optclose(x, y):
-                if name == "tSol" and any(m < tie for m in margins):
-                    return [f"TIE: threshold decision ({name}[{i}])"]
+                if name == "tSol":
+                    # the step(s) at which sigma > threshold was decided for THIS vial
+                    tn = impl["tNuc"][i]
+                    ks = [int(round((v + tn) / impl["dt"])) for v in (x, y)
+                          if v is not None and not (isinstance(v, float) and math.isnan(v)) and not math.isnan(tn)]
+                    if any(tied(k) for k in ks):
+                        return [f"TIE: threshold decision of vial {i} near step {ks} ({name}[{i}])"]
                 dis.append(f"{name}[{i}]: impl {x!r} vs model {y!r}")
                 break
     return dis
@@ -666,6 +687,14 @@ def stateless_failures(case, impl):
     if not close(impl["T0_obj"], impl["T0"]):
         out.append(("initial_temperature", f"T_k_0 of the object is {impl['T0_obj']!r} but the configuration implies "
                     f"{impl['T0']!r} (another object built before in this process had another start temperature)"))
+    rel = case["k"].get("s_sigma_rel")
+    if case["N_vials"][2] == 1 and rel is not None and rel > 0 and len(impl["normals"]) != impl["n"]:
+        out.append(("observation", f"s_sigma_rel > 0 on a shelf of {impl['n']} vials but the run drew "
+                    f"{len(impl['normals'])} shelf normals in its last normal() call ({impl['normal_calls']} calls): "
+                    "the shelf coefficients cannot be re-derived"))
+    for key, val in impl.get("k_obj", {}).items():
+        if val != float(case["k"][key]):
+            out.append(("coefficients_kept", f"k['{key}'] of the object is {val!r}, the user passed {case['k'][key]!r}"))
     if impl.get("mask_obj") is not None and impl["mask_obj"] != impl["mask"]:
         out.append(("storage_mask", "the storage mask differs from the listed vial indices"))
     return out
